@@ -21,19 +21,33 @@ LEVEL = "model_checking"
 OWN_CLAUSES = {"RefineOnly", "NoSameSpanChild", "Repeat"}
 
 
-def sweep_repeat(n, cache_size, levy, size=(2,), tol=0.0, halfway=False, entropy=21):
-    """forward sweep of n steps storing answers, backward sweep comparing; then forward again."""
+def sweep_repeat(n, cache_size, levy, size=(2,), tol=0.0, halfway=False, entropy=21, drift=False):
+    """forward sweep of n steps storing answers, backward sweep comparing; then forward again.
+    drift: the caller computes "the same" time in two ways - the start of a step by a running t += dt, its end as
+    (k + 1) dt - so that consecutive queries meet only up to a few ulps (dt = 1/n not representable); the very same
+    floats are asked again backward."""
     import torchsde
     bm = torchsde.BrownianInterval(0.0, 1.0, size=size, dtype=torch.float64, entropy=entropy, cache_size=cache_size,
                                    tol=tol, halfway_tree=halfway, levy_area_approximation=levy)
     first = []
     bad = None
+    if drift:
+        dt, t, qs = 1.0 / n, 0.0, []
+        for k in range(n):
+            e = min((k + 1) * dt, 1.0)
+            if t < e:
+                qs.append((t, e))
+            t += dt
+        ask = P._ask_fn(bm, levy)
+    else:
+        qs = [(k, k + 1) for k in range(n)]
+        ask = lambda a, b: B.call(bm, a, b, n, levy)      # noqa: E731
     with warnings.catch_warnings():
         warnings.simplefilter("ignore")
-        for k in range(n):
-            first.append(B.call(bm, k, k + 1, n, levy))
-        for k in list(reversed(range(n))) + list(range(0, n, 7)):
-            ans = B.call(bm, k, k + 1, n, levy)
+        for (a, b) in qs:
+            first.append(ask(a, b))
+        for k in list(reversed(range(len(qs)))) + list(range(0, len(qs), 7)):
+            ans = ask(*qs[k])
             if not all(P._eq(x, y) for x, y in zip(first[k], ans)):
                 bad = k
                 break
@@ -210,12 +224,15 @@ def run(ctx):
     for n in ns:
         for cs in ((0, 2, None) if quick else (0, 1, 2, 45, None)):
             for levy in (("none", "space-time") if quick else P.LEVIES):
-                bad = sweep_repeat(n, cs, levy, size=(2, 2) if levy in ("davie", "foster") else (2,))
-                ctx.case(("sweep", n, cs, levy), sample=dict(sweep=n, cache_size=cs, levy=levy))
-                if bad is not None:
-                    ctx.violation(dict(kind="sweep_repeat", cache_size=cs, levy=levy),
-                                  f"step {bad} of {n} returned a different tensor on the backward sweep",
-                                  replay=dict(n=n, cache_size=cs, levy=levy))
+                for drift in (False, True):
+                    nn = n if not drift else min(n, 300) // 3 * 3 + 1          # 1/nn not representable
+                    bad = sweep_repeat(nn, cs, levy, size=(2, 2) if levy in ("davie", "foster") else (2,), drift=drift)
+                    ctx.case(("sweep", nn, cs, levy, drift), sample=dict(sweep=nn, cache_size=cs, levy=levy, drifting_times=drift))
+                    if bad is not None:
+                        ctx.violation(dict(kind="sweep_repeat", cache_size=cs, levy=levy, drift=drift),
+                                      f"step {bad} of {nn} returned a different tensor on the backward sweep"
+                                      + (" (step starts by a running sum, ends as (k+1) dt)" if drift else ""),
+                                      replay=dict(n=nn, cache_size=cs, levy=levy, drift=drift))
         for (tol, half) in ((1e-3, False), (2.0 ** -12, True)):
             bad = sweep_repeat(min(n, 256), 2, "space-time", tol=tol, halfway=half)
             ctx.case(("sweep-tol", n, tol, half))
